@@ -26,6 +26,10 @@ TRACE = []     # merit calls / solver-step delimiters / solver.x assignments of 
 _orig_call = OO.MeritFunctionForMatch.__call__
 
 
+# knob names: some are proper prefixes of others (k1 / k10 / k11), as in real lattices (kq1, kq10): a selector by name is
+# a full match
+KNAMES = ["k1", "k10", "k2", "k11", "k0", "k3"]
+
 def _logged_call(self, x=None, check_limits=None, return_scalar=None, zero_if_met=None):
     TRACE.append(["m", None if x is None else [fbits(v) for v in np.atleast_1d(x)], check_limits])
     return _orig_call(self, x, check_limits=check_limits, return_scalar=return_scalar, zero_if_met=zero_if_met)
@@ -120,7 +124,7 @@ def mkfun(spec):
 def build(case):
     spec = case["problem"]
     log = []
-    names = ["k%d" % i for i in range(spec["nk"])]
+    names = [KNAMES[i] for i in range(spec["nk"])]
     box = KnobBox({n: k["init"] for n, k in zip(names, spec["knobs"])}, log)
     vary = []
     for n, k in zip(names, spec["knobs"]):
@@ -540,7 +544,7 @@ def gen_calls(rng, spec, family):
             elif x < 0.3 and nk > 1:
                 a["disable_vary"] = [rng.randrange(nk)]
             elif x < 0.4 and nk > 1:
-                a["disable_vary_name"] = ["k%d" % rng.randrange(nk)]
+                a["disable_vary_name"] = [KNAMES[rng.randrange(nk)]]
             calls.append(["step", a])
         elif r < 0.6:
             calls.append(["solve", {"broyden": rng.random() < 0.3}])
@@ -549,7 +553,10 @@ def gen_calls(rng, spec, family):
         elif r < 0.8:
             calls.append(["tag", {"tag": "t%d" % rng.randint(0, 3)}])
         elif r < 0.88 and nk > 1:
-            calls.append([rng.choice(["disable", "enable"]), {"vary": [rng.randrange(nk)]}])
+            if rng.random() < 0.4:
+                calls.append([rng.choice(["disable", "enable"]), {"vary_name": [KNAMES[rng.randrange(nk)]]}])
+            else:
+                calls.append([rng.choice(["disable", "enable"]), {"vary": [rng.randrange(nk)]}])
         elif r < 0.94 and nt > 1:
             calls.append([rng.choice(["disable", "enable"]), {"target": [rng.randrange(nt)]}])
         else:
@@ -564,6 +571,16 @@ def fixed_cases():
                             "knobs": [{"init": 0.5}, {"init": -1.0}], "targets": [{"tol": 1e-9}, {"tol": 1e-9}], "n_steps_max": 5},
                "calls": [["disable", {"vary": [k]}], ["step", {"n": 1}], ["tag", {"tag": "frozen"}], ["enable", {"vary": [k]}],
                          ["step", {"n": 2}], ["reload", {"i": 1}]]}
+    # a tiny target weight: the weighted penalty drops below the solver's own threshold long before the target is within
+    # its tolerance (slowly converging double root) — "converged" means every active target within tolerance, nothing else
+    for w, tol in ((1e-12, 1e-10), (1e-9, 1e-13), (1e-15, 1e-6)):
+        yield {"problem": {"class": "tolfail", "kind": "quad", "nk": 1, "A": [[1]], "b": [0],
+                            "knobs": [{"init": 1.0, "limits": [-10, 10]}], "targets": [{"tol": tol, "weight": w}], "n_steps_max": 20},
+               "calls": [["solve", {}]]}
+        yield {"problem": {"class": "tolfail", "kind": "quad", "nk": 2, "A": [[1, 0], [0, 1]], "b": [0, 0],
+                            "knobs": [{"init": 1.0}, {"init": -2.0}], "targets": [{"tol": tol, "weight": w}, {"tol": 1e-3}],
+                            "n_steps_max": 25},
+               "calls": [["solve", {}], ["solve", {}]]}
     # knobs moved by a step, one of them disabled, then a solve() that cannot succeed: restore to iteration 0
     for k in (0, 1):
         yield {"problem": {"class": "tolfail", "kind": "linear", "nk": 2, "A": [[1, 0], [0, 1], [1, 1]], "b": [1, 1, 5],
